@@ -81,6 +81,16 @@ def run(report, db, tier):
            lambda rid, c: c.startswith(('status:narrow', 'status:default',
                                         'status:reconnect')),
            lambda sub: c09.status_evaluation(sub, db, S, M, Proto(db)))
+    from . import c14
+    from .. import pathsum as _ps
+    borrow(report, 'R15.9', "'terminates and reports an error, or takes the "
+           "fallback': the fallback is the reactor's own exception handler "
+           "-- its true result ends the dispatch, and when it raises itself "
+           "(the reconnect failed) the new exception is dispatched like any "
+           "other (C14's rule)",
+           lambda rid, c: c == 'reactor-handler',
+           lambda sub: c14.chain(sub, db, _ps.PathSum(
+               db, cg, inline_pred=_ps.known_unit_pred()), M))
     borrow(report, 'R15.8', 'the version the fallback logs in with: without '
            'an initial_version the default is the latest *allowed* version '
            '(C09\'s construction rule)',
